@@ -62,6 +62,10 @@ func TestVerifSymLookup(t *testing.T) {
 		a, err := unexports2.FindVarByName(name)
 		return a, err == nil
 	}
+	if os.Getenv("VERIF_ORDER") == "varfirst" {
+		// the very first by-name lookup of the process is a VARIABLE (the answers must not depend on the order)
+		lookupV("github.com/tencent/goom/zzverif/corpus/vars.int1")
+	}
 	// function names + truth: our own reading of the pclntab gives names; the runtime gives the address
 	exe, _ := os.Executable()
 	f, err := elf.Open(exe)
